@@ -285,6 +285,16 @@ def grammar_obligations(repo, second_opinion=True, runtime_tests=True, thorough=
                         cands.add(body[:i] + ch + body[i + 1:])
                 if i + 1 < len(body):
                     cands.add(body[:i] + body[i + 1] + body[i] + body[i + 2:])
+            # characters outside the token alphabet (blank, control characters, unnamed/private-use code points,
+            # look-alikes): every such string must be rejected with the parser's own exception type
+            base_text = voc.text(sent)
+            for ch in (" ", "\n", "\t", "\r", "\x00", "\x85", "\ue000", "\u2212", "\u00e9", "0", "x", "\U0001F600"):
+                for i in sorted({0, 1, len(base_text) // 2, len(base_text) - 1, len(base_text)}):
+                    variant = base_text[:i] + ch + base_text[i:]
+                    diff = semantic_differential(variant)
+                    n_diff += 1
+                    if diff is not None and len(sem_fail) < 5:
+                        sem_fail.append((variant, diff))
             for cnd in sorted(cands):
                 full = cnd + sent[-1]
                 if full in seen:
@@ -326,5 +336,5 @@ def grammar_obligations(repo, second_opinion=True, runtime_tests=True, thorough=
         obs.append({"name": "edits/outcome-equals-reference", "ok": False if sem_fail else True,
                     "replay": path if sem_fail else None, "values": {"text": sem_fail[0][0]} if sem_fail else {},
                     "detail": {"strings": n_diff, "failures": sem_fail[:3],
-                               "note": "every one-token insertion, deletion, replacement and transposition of the solver-generated sentences (GREATER_THAN_NINE rendered as 10, 27, 100): accept/reject, exception type and graph of the real graph_from_tucan equal REF-DECODER's; concrete differential run, reported as solver-seeded testing"}})
+                               "note": "every one-token insertion, deletion, replacement and transposition of the solver-generated sentences (GREATER_THAN_NINE rendered as 10, 27, 100), plus one character from outside the token alphabet (blank, newline, tab, NUL, U+0085, private-use, U+2212, 'é', '0', 'x', an emoji) at five positions: accept/reject, exception type and graph of the real graph_from_tucan equal REF-DECODER's; concrete differential run, reported as solver-seeded testing"}})
     return obs, {"solver_s": round(solver_s, 2), "parser_regex": pr.stats, "lexer_regex": lx.stats}
